@@ -23,6 +23,7 @@ STR_ATTRS = [S(''), S('abc'), S('ABC'), S('aBc'), S('ab'), S('b'), S('xabcx'), S
              S('a\r\nb'), S('a\nb'), S('line1\nline2'), S('a\tb'),
              # texts that look like versions, timestamps, numbers, keywords: a string operator must not reinterpret them
              S('1.9.0'), S('1.10.0'), S('1.0.0-rc1'), S('1.0.0+a'), S('2024-01-01T00:00:00Z'), S('2024-01-01T00:00:00.2Z'), S('2024-01-01T00:00:00.7'), S('2024-01-01T01:00:00+01:00'), S('10'), S('9'), S('1e3'), S('0x10'),
+             S('tom &amp; jerry'), S('tom & jerry'), S('&lt;'), S('<'), S('&#39;'), S("'"), S('a%20b'), S('a+b'), S('\ufeffabc'), S('\ufeff'), S('\u200babc'), S('\u00a0abc'), S('abc\ufeff'),
              S('a{b}'), S('a[b]'), S('a~'), S('a^'), S('a`'), S('a@'), S('a_b'), S('a\x7fb'), S('a|b'), S('a\\b'), S('a\ufffd'), S('\ufffd'), S(b'caf\xe9'), S('caf\ufffd'),
              S('${HOME}'), S('$HOME'), S(os.environ.get('HOME', '/root')), S('${PATH}'), S('%s'), S('~'), S('${USER:-x}'),
              S('k'), S('\u212a'), S('i'), S('\u03c9'), S('\u2126'), S('\u1e9e'), S('istanbul'), S('\u0130stanbul'), S('300 \u212a')]
@@ -30,11 +31,12 @@ VER_ATTRS = [S('1.0.0'), S('1.9.0'), S('1.10.0'), S('2.0.0'), S('1.0.0-beta'), S
              S('1.0.0-1'), S('1.0.0-2'), S('1.0.0-10'), S('1.0.0+build5'), S('1.0.0-beta+exp.sha'), S('1.0'), S('v1.0.0'),
              S('1.0.0.'), S('01.0.0'), S('1.0.0-01'), S('1.0.0-'), S('1.0.0+'), S('18446744073709551615.0.0'),
              S('18446744073709551616.0.0'), S('1.0.0-a_b'), S('1..0'), S(' 1.0.0'), S('1.0.0-rc.1'), S('1.0.0-rc.1.1'), S('0.0.0'),
+             S('1.0.0+build-5'), S('1.0.0+a-b'), S('1.10.0+2024-01-02.sha-5114f85'), S('1.0.0-a-b+c-d'), S('1.0.0+-'),
              S('1.0.0\n'), S('1.0.0\r\n'), S('1.0.0 '), S('\n1.0.0'), S('1.0.0\t'), S('1.0.0-rc.1\r\n'), S('1.0.0\r'),
              S('1.0.0-\u212a'), S('1.0.0+build.\u212a'), S('1.0.0-\u0130'), S('1.0.0-RC.1'), S('1.0.0-\u00e9'), S('\uff11.0.0'), S('1.0.0-rc\u2024 1')]
 STRINGER_ATTRS = [('str', b'abc'), ('str', b'ABC'), ('str', b'1.0.0'), ('str', b''), ('strptr', b'abc'), ('strpanic',), ('strnilptr',), ('strselfpanic',), ('strpanicinvop',), ('strpanicinvopw',),
                   ('jnum', b'12'), ('jnum', b'2.25'), ('jnum', b'1'), ('jnum', b'abc'), ('strslice', b'abc'), ('strslice', b'10.0.0.1'), ('strreent', b'abc'), ('strreent', b'1.0.0'), ('strsame', b'abc'), ('strsame', b'1.0.0'), ('strtm', b'abc'), ('strtm', b'2024-01-02 03:04:05 +0000 UTC'), ('strbig', b'5'), ('strbig', b'12345678901234567890123'), ('strbig', b'1'), ('strver', b'1.0.0'), ('strverptr', b'1.0.0'), ('strver', b'1.2.3-rc.1+b5')]
-MISC_ATTRS = [('nil',), ('b', True), ('b', False), ('m', []), ('m', [(b'a', I(1))]), ('nilmap',)] + [('o', t) for t in list(range(21)) + [22, 23, 24, 25, 26, 27, 29, 30, 31, 32, 33, 34, 35, 36, 37, 38, 39, 40, 41, 42, 43, 44, 45, 46, 47, 48, 49, 50, 51, 52, 53, 54, 55, 56, 57, 58, 59]]
+MISC_ATTRS = [('nil',), ('b', True), ('b', False), ('m', []), ('m', [(b'a', I(1))]), ('nilmap',)] + [('o', t) for t in list(range(21)) + [22, 23, 24, 25, 26, 27, 29, 30, 31, 32, 33, 34, 35, 36, 37, 38, 39, 40, 41, 42, 43, 44, 45, 46, 47, 48, 49, 50, 51, 52, 53, 54, 55, 56, 57, 58, 59, 60, 61, 62, 63]]
 OTHER_TYPED = [a for a in MISC_ATTRS if a[0] == 'o']   # every non-string, non-number Go type the driver can build
 ABSENT = ('absent',)   # pseudo value: key not in the object
 
@@ -49,6 +51,7 @@ DOUBLE_LITS = ['0.0', '1.0', '-1.0', '1.5', '1.7', '-0.5', '2.0', '5.0', '100.0'
                '0.1000000000000000055511151231257827021181583404541015625', '1.7976931348623157e308', '1.7976931348623159e308']
 STR_LITS = ['', 'abc', 'ABC', 'aBc', 'ab', 'b', 'bc', 'x', ' abc', 'abc ', ' ', 'É', 'é', 'ß', 'Σ', 'ς', '日本', '1', 'true', 'a b', '1.0.0',
             'a\r\nb', 'a\nb', '\r\n', '\n', '1.9.0', '1.10.0', '1.0.0+B', '2024-01-01T00:00:00Z', '2024-01-01T00:00:00.5Z', '2023-12-31T23:00:00-01:00', '10', '9', '1000', '16',
+            'tom &amp; jerry', 'tom & jerry', '&lt;', '&amp;', '&#39;', '&quot;', '&nbsp;', 'a%20b', '\ufeff', '\ufeffabc', '\u200babc', 'true', 'True', 'TRUE', 'false', 'FALSE',
             'a{b}', 'a[b]', 'a~', 'a^', 'a`', 'a@', 'a_b', 'a|b', '\ufffd', 'a\ufffd', 'caf\ufffd',
             '${HOME}', '$HOME', '${PATH}', '%s', '%d', '~', '${PWD}', '$(pwd)', '{{.Home}}', '%HOME%', '${HOME}/x',
             'k', '\u212a', 'i', '\u0130', '\u03c9', '\u2126', '\u1e9e', 'istanbul', '300 k']
